@@ -223,3 +223,16 @@ def qualifiers(a, b=None):
         elif R.tau2(v) < 0:
             out.append(f"{name}spacelike")
     return "".join("@" + o for o in out)
+
+
+def lossy_temporal(opname, result_system, ref_cart, operand_systems):
+    """add / subtract: the sum or difference came back tau-stored (which cannot hold a negative time component) although
+    its exact time component is negative and one of the operands stored t - the loss is then not a consequence of the
+    operands' own storage, and the result must be compared (and found wrong) instead of being excluded"""
+    if opname not in ("add", "subtract", "a+b", "a-b", "__add__", "__sub__"):
+        return False
+    if len(result_system) != 3 or result_system[2] != "tau" or len(ref_cart) < 4:
+        return False
+    if not (R.M(ref_cart[3]) < 0):
+        return False
+    return any(s is not None and len(s) == 3 and s[2] == "t" for s in operand_systems)
